@@ -48,13 +48,18 @@ def gen_history(r, path, nops, grow):
     dbs = [1]
     inplace = (not grow) and r.random() < 0.5
     # churn profile: one small block per database, deletes and re-puts of medium values: data blocks are compacted in place
-    churn = (not grow) and (not inplace) and r.random() < 0.7
-    if r.random() < (0.8 if inplace else 0.4):
+    churn = (not grow) and (not inplace) and r.random() < 0.5
+    # relocation profile: a pre-grown file (no growth, so no forced checkpoint, in the enumerated part), few keys whose values grow
+    # step by step: their data block is moved to a larger one again and again, the ranges it leaves are reused by small records
+    reloc = (not grow) and (not inplace) and (not churn) and r.random() < 0.8
+    if r.random() < (0.8 if inplace else 1.0 if reloc else 0.4):
         setup.append("db 2"); st[2] = {}; dbs.append(2)
     keys = [b"k%03d" % i for i in range(r.choice([6, 20, 50]))] + [bytes([65 + i]) * r.choice([40, 120, 200]) for i in range(2)]
-    if grow:
-        big = r.choice([30000, 60000, 100000])
+    if grow or reloc:
+        big = r.choice([30000, 60000, 100000]) if grow else 250000
         setup += ["put 1 %s %d 9" % (b"grow".hex(), big), "del 1 %s" % b"grow".hex()]
+    if reloc:
+        keys = keys[:r.choice([2, 3, 5])]          # few keys in each of two databases: the blocks of one land where the other's were
     # some committed content before the enumeration starts
     # (in-place profile: mostly a small store whose file never grows, so that close has no tail to trim and its
     # checkpoint is not preceded by the resize-forced one of open finding F26)
@@ -132,6 +137,12 @@ def gen_history(r, path, nops, grow):
                 ln = r.choice([r.randrange(1, 40), r.randrange(1, 300), r.randrange(300, 3000), r.randrange(3900, 4300),
                                r.randrange(4000, 9000)] + ([] if grow else [r.randrange(9000, 40000)]))
                 seed = r.randrange(1, 250)
+                if reloc:
+                    if False:
+                        pass
+                    else:
+                        prev = max([a[3] for a in acts if a[0] == "put" and a[1:3] == (d, k)] + [st.get(d, {}).get(k, (100, 0))[0]])
+                        ln = min(30000, prev * 2 + r.randrange(1, 60)) if r.random() < 0.7 else r.randrange(50, 300)
                 if churn:
                     ln = r.randrange(40, 260)
                 if inplace:
@@ -223,6 +234,16 @@ def explore(ctx, h, drv, label, nhist, nops, stride, n2):
         ctx.sample(dict(history_head=lines[:6], ops=len(ops), effects=total, count_line=out[1]))
         # (b) log semantics: every real checkpoint replayed by the model
         nck = int(W.field(out[1], "ckpts"))
+        # the log every checkpoint of this history rolled forward: only WRITE / SET / RESIZE records may change the main file
+        # (replay_idempotent, checkpoint_kill_recovers are theorems about such logs; a COPY record reads its source at replay time)
+        for i in range(nck):
+            wf = os.path.join(obs, "wal%d" % i)
+            if os.path.exists(wf):
+                kinds = [op for (_, _, op) in W.parse_log(open(wf, "rb").read())]
+                if W.COPY in kinds and not any("WBCOPY" in x for x in ctx.corr_broken):
+                    ctx.corr_broken.append("the log of a checkpoint holds %d WBCOPY record(s) (history %d of stream %s): replaying such a log twice - a kill "
+                                           "between roll-forward and truncation - is not idempotent; the recovery theorems cover WRITE/SET/RESIZE logs" % (
+                                               kinds.count(W.COPY), hi, label))
         ck = ["ckpt %s/pre%d %s/wal%d %s/post%d" % (obs, i, obs, i, obs, i) for i in range(nck)]
         pk = {}
         # (a) every crash point (or every stride-th one), plus second-level kills inside the recovery
